@@ -6,7 +6,13 @@
 use crate::parser;
 use crate::types::error::ScriptError;
 use crate::types::instruction::{Instruction, InstructionMetaInfo};
+use std::cell::RefCell;
 use std::path::PathBuf;
+
+thread_local! {
+    /// The files currently being included (outermost first), used to detect cyclic includes.
+    static INCLUDE_CHAIN: RefCell<Vec<String>> = RefCell::new(vec![]);
+}
 
 pub(crate) fn run(
     arguments: &Option<Vec<String>>,
@@ -42,7 +48,18 @@ pub(crate) fn run(
                 }
             };
 
-            match parser::parse_file(&file_path) {
+            if INCLUDE_CHAIN.with(|chain| chain.borrow().contains(&file_path)) {
+                return Err(ScriptError::Runtime(
+                    format!("Cyclic include of file: {}", &file_path),
+                    Some(meta_info.clone()),
+                ));
+            }
+
+            INCLUDE_CHAIN.with(|chain| chain.borrow_mut().push(file_path.clone()));
+            let result = parser::parse_file(&file_path);
+            INCLUDE_CHAIN.with(|chain| chain.borrow_mut().pop());
+
+            match result {
                 Ok(mut additional_instructions) => {
                     instructions.append(&mut additional_instructions)
                 }
